@@ -244,8 +244,27 @@ def doBatch (d : DS) (k : FlapConsts) (gid : String) (b : Batch) : DS := Id.run 
 /-! ### comparing with what the implementation did -/
 
 def renderEv (o : Out) : String := s!"{esc o.id}:{o.ev.level}:{o.ev.time}:{o.ev.dur}"
+/-- `esc` with ':' escaped too (':' separates the parts of an observation token) -/
+def escC (s : String) : String := (esc s).replace ":" "%3A"
+
 def renderFwd (batch : Bool) (o : Out) : String :=
-  if batch then s!"{esc o.id}:{o.ev.level}:{o.tmax}:{o.ev.dur}:{o.npts}" else renderEv o
+  let f := if batch then specForward o.id o.ev o.tmax o.npts else specForward o.id o.ev o.ev.time 1
+  s!"{escC f.dataID}:{escC f.idField}:{escC f.levelField}:{f.time}:{f.durField}:{escC f.msgField}:{escC f.levelTag}:{escC f.idTag}:{f.npts}"
+
+/-- first difference between two lists of forwarded data, with the name of the part that differs -/
+def fwdDiff (expected observed : List String) : String :=
+  let names := ["data-id", "idField", "levelField", "time", "durationField", "messageField", "levelTag", "idTag", "points"]
+  let rec go (i : Nat) : List String → List String → String
+    | [], [] => "none"
+    | e :: _, [] => s!"#{i} not forwarded: expected {e}"
+    | [], o :: _ => s!"#{i} forwarded without an event: {o}"
+    | e :: es, o :: os =>
+      if e == o then go (i + 1) es os else
+      let pe := e.splitOn ":"
+      let po := o.splitOn ":"
+      let bad := (names.zip (pe.zip po)).filterMap (fun (n, (a, b)) => if a != b then some n else none)
+      s!"#{i} differs in {bad}: expected {e} observed {o}"
+  go 0 expected observed
 
 def parseList (obs : List String) : Option (List String) :=
   match obs with
@@ -334,13 +353,10 @@ def judge (_id : String) (lines : Array String) : Verdict := Id.run do
       let batch := d.conf.form == "b" || d.conf.form == "w"
       let sp := d.specOut.toList.map (renderFwd batch)
       let md := d.modelOut.toList.map (renderFwd batch)
-      let nTail := if batch then 4 else 3
       if observed != sp then
-        let (clause, detail) := classify nTail sp observed
-        return .specfail s!"forwarded-{clause}" s!"forwarded data: {detail} (model {if observed == md then "agrees with" else "differs from"} the implementation)"
+        return .specfail "forwarded-data" s!"{fwdDiff sp observed} (model {if observed == md then "agrees with" else "differs from"} the implementation)"
       if observed != md then
-        let (_, detail) := classify nTail md observed
-        return .mismatch s!"forwarded data: model vs implementation: {detail}"
+        return .mismatch s!"forwarded data: model vs implementation: {fwdDiff md observed}"
     | _ => return .badop l
   let nt := d.modelOut.size ≥ 2 && d.quiet ≥ 1
   return .ok nt d.branches.reverse
